@@ -66,6 +66,11 @@ pub fn c07_configs(thorough: bool) -> Vec<EpCfg> {
                     b.alph.reply_err = false;
                     b.alph.peer_acks = vec![AckKind::Pubrel, AckKind::Puback, AckKind::Pubrec, AckKind::Pubcomp];
                     b.alph.peer_ack_ids = vec![1, 2];
+                    // (the option setters are ordinary calls, also between connections and around an attempt that
+                    // is never established: they must not change what the session remembers)
+                    if role != RoleK::Any {
+                        b.alph.toggle_opts = vec![1];
+                    }
                     b.connects = vec![ConnProf::basic(true), ConnProf::basic(false)];
                     b.connacks = vec![AckProf::basic(false), AckProf::basic(true)];
                     v.push(b);
@@ -361,7 +366,7 @@ pub fn c12_configs(thorough: bool) -> Vec<EpCfg> {
                 let mut c = EpCfg::new(&cfg_name("c12", role, Some(Ver::V5), &format!("inbound own={own} auto={auto}")), role, Some(Ver::V5));
                 c.auto_pub = auto;
                 c.window = 1;
-                c.alph = Alph { peer_pub_q: vec![1, 2], peer_ids: vec![1, 2, 3], peer_dup: true, peer_acks: vec![AckKind::Pubrel], peer_ack_ids: vec![1, 2, 3], spontaneous_close: true, topics: 1, als: vec![Al::No], reply_err: true, ..Alph::default() };
+                c.alph = Alph { peer_pub_q: vec![1, 2], peer_ids: vec![1, 2, 3], peer_dup: true, peer_acks: vec![AckKind::Pubrel], peer_ack_ids: vec![1, 2, 3], spontaneous_close: true, topics: 1, als: vec![Al::No], reply_err: true, early_peer_traffic: true, ..Alph::default() };
                 c.connects = vec![ConnProf { rm: Some(own), ..ConnProf::basic(true) }, ConnProf { rm: Some(own), ..ConnProf::basic(false) }];
                 c.connacks = vec![AckProf { rm: Some(own), ..AckProf::basic(false) }, AckProf { rm: Some(own), ..AckProf::basic(true) }];
                 c.groups = vec!["c12"];
@@ -465,7 +470,8 @@ pub fn c13_configs(thorough: bool) -> Vec<EpCfg> {
                     spontaneous_close: true,
                     regulate: true,
                     // registrations attempted while the CONNACK is still outstanding (stored, not transmitted)
-                    pub_any_status: mode == "manual",
+                    // (with automatic mapping as well: a packet that is only stored binds nothing)
+                    pub_any_status: true,
                     ..Alph::default()
                 };
                 let t = if tam == 0 { None } else { Some(tam) };
@@ -717,7 +723,10 @@ pub fn c14_configs(thorough: bool) -> Vec<EpCfg> {
         c.window = 2;
         c.alph = Alph { pub_q: vec![1, 2], topics: 3, als: vec![Al::No], pub_any_status: true, peer_acks: vec![AckKind::Puback, AckKind::Pubrec, AckKind::Pubcomp], peer_ack_ids: vec![1, 2], spontaneous_close: true, ..Alph::default() };
         c.connects = vec![ConnProf { sei: Some(100), ..ConnProf::basic(true) }, ConnProf::basic(false)];
-        c.connacks = vec![AckProf { mps: Some(12), ..AckProf::basic(false) }, AckProf { mps: Some(12), ..AckProf::basic(true) }, AckProf::basic(true)];
+        // (one CONNACK carries the limit behind a Server Keep Alive, with an application override of the PINGREQ
+        // interval in force: every property of the block is honoured, whatever stands in front of it)
+        c.alph.set_interval = vec![None, Some(3)];
+        c.connacks = vec![AckProf { mps: Some(12), ..AckProf::basic(false) }, AckProf { mps: Some(12), ..AckProf::basic(true) }, AckProf { mps: Some(12), ska: Some(2), rev: true, ..AckProf::basic(true) }, AckProf::basic(true)];
         c.groups = vec!["c14"];
         v.push(c);
     }
